@@ -61,8 +61,9 @@ RowMatches(h, cfg, w, g) ==
                           /\ cfg.hhFile => g.fp = <<HunkFile(h, w.k)>>   \* C05/C14: the hunk's own file
     [] w.t = "fileHdrOpt" -> g.t = "fileHdr"
     [] w.t = "fileHdr" -> /\ g.t = "fileHdr"
-                          /\ w.d # <<>> => /\ g.fp = WantFiles(w.d)
-                                           /\ g.lab = (CASE w.d[3] = "comparing" -> "modified" [] w.d[3] = "submodule" -> ""
+                          \* ("Only in <dir>: <name>" shows directory and name apart: the name identifies the file)
+                          /\ w.d # <<>> => /\ IF w.d[3] = "onlyin" THEN g.fs = <<w.d[1]>> ELSE g.fp = WantFiles(w.d)
+                                           /\ g.lab = (CASE w.d[3] = "comparing" -> "modified" [] w.d[3] \in {"submodule", "onlyin"} -> ""
                                                           [] OTHER -> w.d[3])
                                            /\ g.mode = (w.d[4] = 2)
                                            /\ g.bin = w.d[5]
